@@ -90,7 +90,9 @@ BASE_A = [  # reference unit, SI prefixes, equal-scale units spelled differently
     ('#[unit(Big_Next, "BN", 100000000000000016.0)]', None),
     ('#[unit(Big_Round, "BR", 1e17)]', None),
 ]
-BASE_B = [('#[unit(Zeta_Unit, "z")]', None), ('#[unit(Alpha, "α", "first by name")]', None), ('#[unit(Mid_Unit, "m")]', None), ('#[unit(Beta, "β")]', None)]
+BASE_B = [('#[unit(Zeta_Unit, "z")]', None), ('#[unit(Alpha, "α", "first by name")]', None), ('#[unit(Mid_Unit, "m")]', None), ('#[unit(Beta, "β")]', None),
+          # identifiers whose NAME order differs from the order of the re-cased variant identifiers
+          ('#[unit(Rockwell_B, "HRB")]', None), ('#[unit(RockwellA, "HRA")]', None), ('#[unit(phon, "ph")]', None), ('#[unit(Sone_Unit, "so")]', None)]
 BASE_C = [('#[unit(Only_One, "1")]', None)]
 FOO = ['#[quantity]', '#[unit(Kiloflop, "kf", KILO, 1000.)]', '#[ref_unit(Flop, "f", NONE)]', '#[unit(Centiflop, "cf", CENTI, 0.01)]', 'pub struct Foo {}']
 BAR = ['#[quantity]', '#[ref_unit(Emil, "e")]', '#[unit(Milliemil, "me", 0.001)]', '#[unit(Kiloemil, "ke", 1000)]', 'pub struct Bar {}']
@@ -263,9 +265,14 @@ def macro_structure(ctx):
                 pair = (t[3][0], t[3][1])
             if pair:
                 from .rules_c02 import subst
-                ok = T.canon(subst(pair[0], {A: B})) == T.canon(pair[1]) and A in flatten(pair[0]) and B not in flatten(pair[0])
+                fl = flatten(pair[0])
+                ok = T.canon(subst(pair[0], {A: B})) == T.canon(pair[1]) and A in fl and B not in fl
+                # the key is the declared scale (reference-unit path) resp. the unit NAME (other path)
+                keyfield = [x[2] for x in fl if x[0] == "field" and x[1] == A]
+                ok = ok and keyfield in (["scale"], ["name"])
+                desc += "  [key field: %s]" % keyfield
         ctx.ob("macro-comparator", inst, ok,
-               "the sort comparator is not an exact ordering `key(a).cmp(key(b))` of one key (observed: %s): units whose keys differ may compare equal or order-dependent" % desc,
+               "the sort comparator is not an exact ordering `key(a).cmp(key(b))` of the specified key (scale literal / unit name) — observed: %s" % desc,
                sc_.get("sp"))
     cg = c.mir.get("qty_macros::quantity_attr_helper::codegen")
     if cg is None:
